@@ -585,6 +585,140 @@ theorem badRun_unescape : ∀ (c : List Char), wfQ '`' c = true → badRun false
           rw [unescapeBackquote_eqns.2.2 x (e :: r') (fun hh => hb hh.1)]
           simp [badRun, hb, ih]
 
+/-! `badRun` says what the property's wording says: some MAXIMAL run of backslashes of odd length is followed
+by a back quote, a newline, or the end of the string -/
+
+def postOK (post : List Char) : Prop := post = [] ∨ post.head? = some '`' ∨ post.head? = some '\n'
+
+/-- `s = pre ++ \^k ++ post`, the run maximal on the left (`pre` does not end with a backslash) and - by
+what follows it - on the right, `k` odd -/
+def HasBadRun (s : List Char) : Prop :=
+  ∃ pre k post, s = pre ++ (List.replicate k '\\' ++ post) ∧ pre.getLast? ≠ some '\\' ∧ k % 2 = 1 ∧ postOK post
+
+/-- the same with `odd` = "an odd number of backslashes immediately precedes `s`" -/
+def HasBadRunFrom (odd : Bool) (s : List Char) : Prop :=
+  ∃ pre k post, s = pre ++ (List.replicate k '\\' ++ post) ∧ pre.getLast? ≠ some '\\' ∧ postOK post ∧
+    (if pre = [] then (k + (if odd then 1 else 0)) % 2 = 1 else k % 2 = 1)
+
+theorem getLast?_cons_ne_nil {c : Char} {l : List Char} (h : l ≠ []) : (c :: l).getLast? = l.getLast? := by
+  cases l with
+  | nil => exact absurd rfl h
+  | cons x xs => simp [List.getLast?_cons_cons]
+
+theorem badRun_iff_from : ∀ (s : List Char) (odd : Bool), badRun odd s = true ↔ HasBadRunFrom odd s
+  | [], odd => by
+      simp only [badRun]
+      constructor
+      · intro h
+        exact ⟨[], 0, [], rfl, by simp, Or.inl rfl, by simp [h]⟩
+      · rintro ⟨pre, k, post, hs, _, _, hp⟩
+        have h1 : pre = [] := by
+          cases pre with
+          | nil => rfl
+          | cons _ _ => simp at hs
+        subst h1
+        have h2 : k = 0 := by
+          cases k with
+          | zero => rfl
+          | succ _ => simp [List.replicate_succ] at hs
+        subst h2
+        cases odd <;> simp at hp ⊢
+  | c :: r, odd => by
+      by_cases hc : c = '\\'
+      · subst hc
+        simp only [badRun, if_true]
+        rw [badRun_iff_from r (!odd)]
+        constructor
+        · rintro ⟨pre, k, post, hs, hl, ho, hp⟩
+          by_cases hpre : pre = []
+          · subst hpre
+            refine ⟨[], k + 1, post, by simp [hs, List.replicate_succ], by simp, ho, ?_⟩
+            simp only [if_true] at hp ⊢
+            cases odd <;> simp at hp ⊢ <;> omega
+          · refine ⟨'\\' :: pre, k, post, by simp [hs], ?_, ho, ?_⟩
+            · rw [getLast?_cons_ne_nil hpre]; exact hl
+            · simp only [hpre, if_false] at hp; simp [hp]
+        · rintro ⟨pre, k, post, hs, hl, ho, hp⟩
+          cases pre with
+          | nil =>
+              simp only [List.nil_append, if_true] at hs hp
+              cases k with
+              | zero =>
+                  simp only [List.replicate_zero, List.nil_append] at hs
+                  subst hs
+                  rcases ho with h | h | h <;> simp at h
+              | succ j =>
+                  simp only [List.replicate_succ, List.cons_append, List.cons.injEq, true_and] at hs
+                  refine ⟨[], j, post, by simp [hs], by simp, ho, ?_⟩
+                  simp only [if_true]
+                  cases odd <;> simp at hp ⊢ <;> omega
+          | cons x pre' =>
+              simp only [List.cons_append, List.cons.injEq] at hs
+              obtain ⟨hx, hs⟩ := hs
+              subst hx
+              have hpre' : pre' ≠ [] := by
+                intro e; subst e; simp at hl
+              refine ⟨pre', k, post, hs, ?_, ho, ?_⟩
+              · rw [getLast?_cons_ne_nil hpre'] at hl; exact hl
+              · simp only [List.cons_ne_nil, if_false] at hp; simp [hpre', hp]
+      · simp only [badRun, hc, if_false, Bool.or_eq_true, Bool.and_eq_true, beq_iff_eq]
+        rw [badRun_iff_from r false]
+        constructor
+        · rintro (⟨ho, hq⟩ | ⟨pre, k, post, hs, hl, ho, hp⟩)
+          · refine ⟨[], 0, c :: r, by simp, by simp, ?_, by simp [ho]⟩
+            rcases hq with h | h <;> subst h
+            · exact Or.inr (Or.inl rfl)
+            · exact Or.inr (Or.inr rfl)
+          · refine ⟨c :: pre, k, post, by simp [hs], ?_, ho, ?_⟩
+            · by_cases hpre : pre = []
+              · subst hpre; simp [hc]
+              · rw [getLast?_cons_ne_nil hpre]; exact hl
+            · by_cases hpre : pre = []
+              · subst hpre; simpa using hp
+              · simp only [hpre, if_false] at hp; simp [hp]
+        · rintro ⟨pre, k, post, hs, hl, ho, hp⟩
+          cases pre with
+          | nil =>
+              simp only [List.nil_append, if_true] at hs hp
+              cases k with
+              | zero =>
+                  simp only [List.replicate_zero, List.nil_append] at hs
+                  subst hs
+                  left
+                  refine ⟨by cases odd <;> simp at hp ⊢, ?_⟩
+                  rcases ho with h | h | h
+                  · simp at h
+                  · left; simpa using h
+                  · right; simpa using h
+              | succ j =>
+                  simp only [List.replicate_succ, List.cons_append, List.cons.injEq] at hs
+                  exact absurd hs.1 hc
+          | cons x pre' =>
+              simp only [List.cons_append, List.cons.injEq] at hs
+              obtain ⟨hx, hs⟩ := hs
+              subst hx
+              simp only [List.cons_ne_nil, if_false] at hp
+              right
+              by_cases hpre' : pre' = []
+              · subst hpre'
+                exact ⟨[], k, post, hs, by simp, ho, by simp [hp]⟩
+              · refine ⟨pre', k, post, hs, ?_, ho, by simp [hpre', hp]⟩
+                rw [getLast?_cons_ne_nil hpre'] at hl; exact hl
+
+/-- `badRun false s` holds exactly when `s` has a maximal odd backslash run before a back quote, a newline or
+its end -/
+theorem badRun_iff (s : List Char) : badRun false s = true ↔ HasBadRun s := by
+  rw [badRun_iff_from s false]
+  constructor
+  · rintro ⟨pre, k, post, hs, hl, ho, hp⟩
+    refine ⟨pre, k, post, hs, hl, ?_, ho⟩
+    by_cases hpre : pre = []
+    · simpa [hpre] using hp
+    · simpa [hpre] using hp
+  · rintro ⟨pre, k, post, hs, hl, hk, ho⟩
+    refine ⟨pre, k, post, hs, hl, ho, ?_⟩
+    by_cases hpre : pre = [] <;> simp [hpre, hk]
+
 /-- a back-quoted text that lexes as ONE string token is a well-formed content between the quotes -/
 theorem spellsV_inv (cfg : LexCfg) (hr : NoQuotedRule cfg) {c s : List Char} (h : SpellsV cfg c s) :
     wfQ '`' c = true ∧ s = unescapeBackquote c := by
@@ -657,6 +791,13 @@ theorem verbatim_spellable_iff (cfg : LexCfg) (hr : NoQuotedRule cfg) (s : List 
   rintro ⟨c, hc⟩
   obtain ⟨hw, rfl⟩ := spellsV_inv cfg hr hc
   exact badRun_unescape c hw
+
+/-- the same in the wording of the property: spellable iff there is NO maximal odd run of backslashes before a
+back quote, a newline or the end -/
+theorem verbatim_spellable_iff_runs (cfg : LexCfg) (hr : NoQuotedRule cfg) (s : List Char) :
+    (∃ c, SpellsV cfg c s) ↔ ¬ HasBadRun s := by
+  rw [(verbatim_spellable_iff cfg hr s).1, ← badRun_iff]
+  cases badRun false s <;> simp
 
 /-- **C16.verbatim_unspellable** (known finding K2): the one-character string `\` has no back-quoted
 spelling - so "every string has a spelling in each of the three styles" is false by design. -/
@@ -995,26 +1136,6 @@ example (cfg : LexCfg) : IdentShaped cfg.chars '_' ['_'] :=
 
 /-! ## a concrete configuration (ASCII classes, the default operator table): the hypotheses above are
 satisfiable, and the model computes what the real lexer does on a few texts (checked by the kernel) -/
-
-def asciiChars : CharCfg :=
-  { isWord := fun c => c.isAlphanum || c == '_',
-    isDigit := fun c => c.isDigit,
-    digitVal := fun c => (c.toNat - 48) % 10,
-    digit_word := by intro c h; simp [Char.isAlphanum, h],
-    digit_lt := by intro c _; exact Nat.mod_lt _ (by decide),
-    underscore_word := by decide,
-    underscore_nondigit := by decide,
-    nonword := by
-      intro c h
-      simp only [nonWordChars, List.mem_cons, List.not_mem_nil, or_false] at h
-      rcases h with h | h | h | h | h | h | h | h | h | h | h | h | h | h | h | h | h <;> subst h <;> decide }
-
-def defaultOps : List (List Char) :=
-  [['.'], ['?', '.'], ['+'], ['-'], ['=', '~'], ['!', '~'], ['*'], ['/'], ['m', 'o', 'd'], ['>'], ['<'], ['>', '='],
-   ['<', '='], ['!', '='], ['='], ['i', 'n'], ['n', 'o', 't'], ['a', 'n', 'd'], ['o', 'r'], ['-', '>']]
-
-def asciiCfg : LexCfg :=
-  LexCfg.ofTable asciiChars defaultOps true true (some ['=', '>']) (fun _ => none) 4300
 
 example : NoQuotedRule asciiCfg := noQuotedRule_ofTable _ _ _ _ _ _ _
 
